@@ -121,7 +121,7 @@ def make_collators(kind):
 
 
 STACKS = ("xtransform", "multiview", "subset>xtransform", "idw>concat", "xtransform>xtransform", "interleaved",
-          "ytransform", "concat_shared_root", "multiview_plain_first", "multiview_plain_middle")
+          "ytransform", "concat_shared_root", "multiview_plain_first", "multiview_plain_middle", "xtransform_reassigned")
 
 
 def make_stack(stack, spec, collators):
@@ -146,6 +146,12 @@ def make_stack(stack, spec, collators):
         return ModeWrapper(XTransformWrapper(root(), t()), mode="x class")
     if stack == "multiview":
         return ModeWrapper(KDMultiViewWrapper(root(), [(2, t()), other()]), mode="x")
+    if stack == "xtransform_reassigned":
+        # built with a plain callable, the stochastic transform is assigned to the public attribute afterwards
+        w = XTransformWrapper(root(), cat.Plain())
+        w.getitem_x(0)
+        w.transform = t()
+        return ModeWrapper(w, mode="x class")
     if stack == "multiview_plain_first":
         # a plain callable (torchvision transform / lambda) as a view config before the stochastic ones
         return ModeWrapper(KDMultiViewWrapper(root(), [cat.Plain(), (2, t()), other()]), mode="x")
